@@ -39,6 +39,10 @@ type Term struct {
 	hasQ  bool // contains a quantifier
 }
 
+// knownNonNeg: terms that denote unknown (pre-existing or callee-allocated) references; the
+// engine assumes 0 <= t wherever such a term is created (see leafAssume).
+var knownNonNeg = map[*Term]bool{}
+
 var (
 	termTab  = map[string]*Term{}
 	termSeq  int
@@ -554,6 +558,10 @@ func Select(a, i *Term) *Term {
 				return a.Args[2]
 			}
 			if a.Args[1].Op == "int" && i.Op == "int" {
+				a = a.Args[0]
+				continue
+			}
+			if (knownNonNeg[a.Args[1]] && i.Op == "int" && i.Int.Sign() < 0) || (knownNonNeg[i] && a.Args[1].Op == "int" && a.Args[1].Int.Sign() < 0) {
 				a = a.Args[0]
 				continue
 			}
